@@ -55,6 +55,17 @@ Open Scope float_scope.
 """
 
 
+def eval_lines(pid, header, exprs, tag, per_file):
+    """cm.coq_eval_lines, retried once with smaller files and a generous limit: a busy machine must not turn
+    into a 'model evaluation failed' verdict"""
+    try:
+        return cm.coq_eval_lines(pid, header, exprs, tag=tag, per_file=per_file, timeout=1800)
+    except RuntimeError as e:
+        if "rc=124" not in str(e) and "timed out" not in str(e).lower() and "rc=-" not in str(e):
+            raise
+        return cm.coq_eval_lines(pid, header, exprs, tag=tag + "_retry", per_file=max(10, per_file // 4), timeout=3600)
+
+
 def fx(x):
     return cm.fhex(float(x))
 
@@ -165,7 +176,7 @@ def correspondence(R, pid, cases, results, tier):
     idx = [i for i, c in enumerate(cases) if c["fn"] in ARMS and "exc" not in results[i]]
     exprs = [model_expr(cases[i]) for i in idx]
     try:
-        outs = cm.coq_eval_lines(pid, HEADER, exprs, tag="model", per_file=max(20, len(exprs) // (2 * cm.NCPU) + 1))
+        outs = eval_lines(pid, HEADER, exprs, "model", max(20, len(exprs) // (2 * cm.NCPU) + 1))
     except RuntimeError as e:
         R.corr_broken.append(f"model evaluation failed: {str(e)[:400]}")
         return
@@ -217,7 +228,7 @@ def correspondence(R, pid, cases, results, tier):
                 pex.append(model_expr(pc))
                 owner.append(i)
         try:
-            pouts = cm.coq_eval_lines(pid, HEADER, pex, tag="model_pert", per_file=max(20, len(pex) // (2 * cm.NCPU) + 1))
+            pouts = eval_lines(pid, HEADER, pex, "model_pert", max(20, len(pex) // (2 * cm.NCPU) + 1))
         except RuntimeError as e:
             R.corr_broken.append(f"model evaluation (perturbed) failed: {str(e)[:300]}")
             pouts = []
